@@ -72,7 +72,8 @@ def parseCa : String → Option CaMode
   | "other" => some .other | "missing" => some .missing | _ => none
 
 def parseSrv : String → Option SrvMode
-  | "ok" => some .ok | "close" => some .close | "garbage" => some .garbage | _ => none
+  | "ok" => some .ok | "close" => some .close | "garbage" => some .garbage | "mute" => some .close
+  | _ => none
 
 def parsePath : String → Option Path
   | "s" => some .starttls | "l" => some .legacy | "d" => some .direct | _ => none
